@@ -53,6 +53,10 @@ CHECKS = {
          "exhaustive configuration grid through three real stacks (crypto/tls client, ech.Conn, crypto/tls backend) with a direct handshake of the same configuration as differential oracle",
          "The full product (quick: full product over a reduced domain per dimension) of client curve lists (hence HelloRetryRequest), ALPN lists on both sides, server-name lengths 3..253, cold/warm session cache (PSK resumption inside the inner hello), client certificates up to 17 KB, backend certificates up to 40 KB, key sets incl. keys sharing a config id, three AEADs and fresh/stale client configs is driven end to end in memory; acceptance, application data both ways, server name, ALPN list, negotiated protocol and resumption are compared with a direct handshake; stale configs must yield the public-name server's retry configs, which must then work.",
          "crypto/tls is trusted as the conforming client/backend; stacks run goroutines outside any scheduler, so a failure is reported only when it reproduces 5/5", "§3 C01"),
+ "C12": ("exploration", "E1 enum (worker processes)",
+         "grammar-bounded exhaustive enumeration of hostile DNS messages (name-token strings in every name position, RDATA truncations/mutations, header counts, scaling families), in memory-capped worker processes with hang watchdog",
+         "Every string of up to 4 (5) name tokens (labels, end, pointers to self/forward/header/earlier tokens/past the end, reserved prefixes, half pointers) is placed in the question, owner and every name-bearing RDATA position; 18 RDATA layouts are cut at every byte and mutated at every byte; header counts are swept; scaling families up to 16 KiB (64 KiB) bound time and allocation polynomially; every decoded message is then served as the DoH body to the real Resolver.",
+         "token grammar, not arbitrary bytes; allocation = TotalAlloc delta, budget 256KiB+512n+n^2/2", "§3 C12"),
 }
 
 NOT_YET = {}
